@@ -205,23 +205,19 @@ func (fs *ReaderFS) readProcessFile(
 	}
 
 	if info.IsDir() {
-		// assume dir does not exist yet, then chmod if it does exist
-		wg.Add(1)
-		go func() { // continue prepping dir in the background
-			defer wg.Done()
-			err := fs.unarchiveFS.Mkdir(p, info.Mode())
-			if err != nil {
-				if !errors.Is(err, hackpadfs.ErrExist) {
-					errs <- fserrors.WithMessage(err, "copying dir")
-					return
-				}
-				err = fs.unarchiveFS.Chmod(p, info.Mode())
-				if err != nil {
-					errs <- fserrors.WithMessage(err, "copying dir")
-					return
-				}
+		// assume dir does not exist yet, then chmod if it does exist.
+		// Done by the reader itself: a background Mkdir races the MkdirAll of this directory for a later entry,
+		// and the directory could end up with the parent-prep mode instead of the archived one
+		err := fs.unarchiveFS.Mkdir(p, info.Mode())
+		if err != nil {
+			if !errors.Is(err, hackpadfs.ErrExist) {
+				return fserrors.WithMessage(err, "copying dir")
 			}
-		}()
+			err = fs.unarchiveFS.Chmod(p, info.Mode())
+			if err != nil {
+				return fserrors.WithMessage(err, "copying dir")
+			}
+		}
 		return nil
 	}
 
